@@ -65,6 +65,31 @@ def extra(ctx):
         hp = H11Protocol(None, R.make_config(h11_max_incomplete_size=mhl), S.RigContext(d), S.RigTaskGroup(d), ConnectionState({}), False, None, None, None)
         if hp.connection._max_incomplete_event_size != mhl:
             fails.append({"case": {"kind": "h11-setting"}, "what": "h11_max_incomplete_size not handed to h11", "signature": "c18:h11-setting"})
+    # (2b) ... and they are enforced: a header block well within h2_max_header_list_size is served, one well beyond it is
+    #      refused without reaching an application (finding F65: the configured value was advertised, not applied)
+    from . import h2rig as H2R
+
+    ok_app = [[("recv_all",), ("send", {"type": "http.response.start", "status": 200, "headers": []}), ("send", {"type": "http.response.body", "body": b"ok"})]] * 2
+    for _ in range(ctx.scale(12, 120, 40)):
+        lim = rng.choice([1000, 4096, 30000, 100000])
+        over = rng.random() < 0.5
+        size = lim * 2 if over else lim // 2
+        sess = H2R.H2Session(ok_app, config_kw={"h2_max_header_list_size": lim}, raw_client=True, worker=rng.choice(["asyncio", "trio"]))
+        nh = rng.choice([1, 4])
+        try:
+            sess.request(1, path="/big", headers=[(b"x-big-%d" % i, b"v" * (size // nh)) for i in range(nh)])
+            sess.pump()
+        except Exception as e:  # noqa: BLE001
+            fails.append({"case": {"kind": "h2-header-list", "limit": lim, "size": size}, "what": f"session failed: {e!r}", "signature": "c18:h2-header-list:harness"})
+            continue
+        n += 1
+        dist["h2_header_list"] = dist.get("h2_header_list", 0) + 1
+        served = len(sess.records)
+        case = {"kind": "h2-header-list", "limit": lim, "block": size, "headers": nh, "served": served, "events": [e[:3] for e in sess.events[:4]]}
+        if over and served:
+            fails.append({"case": case, "what": f"a header block of about {size} octets was served with h2_max_header_list_size={lim}", "signature": "c18:h2-header-list-not-enforced"})
+        if not over and (served != 1 or ("response", 1) not in sess.events):
+            fails.append({"case": case, "what": f"a header block of about {size} octets was refused with h2_max_header_list_size={lim}", "signature": "c18:h2-header-list-too-strict"})
     # (3) mark_request of both workers against the model (in Coq)
     import asyncio
 
